@@ -174,6 +174,24 @@ def models():
             return one(mk_option(st.env["any_index"]))
         return one(mk_option())
 
+    # an exclusive range over indexes (a rewrite of the scan): bounds recorded as [start, end)
+    @reg(r"^<std::ops::Range<u16> as IntoIterator>::into_iter$")
+    def _(eng, st, callee, a, ty):
+        lo, hi = z3.simplify(a[0].f[0]), z3.simplify(a[0].f[1])
+        if z3.is_bv_value(hi) and hi.as_long() > 0:
+            st.env["range"] = (lo, BV(hi.as_long() - 1, 16))
+        else:
+            st.env["range"] = (lo, "exclusive end " + str(hi))
+        return one(Opaque("RangeIncl", {"step": 0}))
+
+    @reg(r"^<std::ops::Range<u16> as Iterator>::next$")
+    def _(eng, st, callee, a, ty):
+        r = eng.deref(a[0]).data
+        r["step"] += 1
+        if r["step"] == 1:
+            return one(mk_option(st.env["any_index"]))
+        return one(mk_option())
+
     @reg(r"^core::str::<impl str>::parse::<u32>$")
     def _(eng, st, callee, a, ty):
         return one(mk_ok(eng.fresh("version_part", z3.BitVecSort(32))))
@@ -381,7 +399,8 @@ def run_0_5_to_0_6(ctx, deadline):
             continue
         e2_ = f.env
         rng = e2_.get("range")
-        if not (rng and z3.is_bv_value(rng[0]) and z3.is_bv_value(rng[1]) and rng[0].as_long() == 0 and rng[1].as_long() == 0xFFFF):
+        if not (rng and z3.is_expr(rng[1]) and z3.is_bv_value(rng[0]) and z3.is_bv_value(rng[1])
+                and rng[0].as_long() == 0 and rng[1].as_long() == 0xFFFF):
             viol(f"the scan does not cover the index range 0..=65535 (it covers {rng})")
             continue
         if e2_["cleared"] or e2_["problems"]:
